@@ -21,6 +21,16 @@ CLAIMED = {
         text='Exploration with exhaustive sub-spaces: every scheduler step of 4 (thorough 5) deterministic baseline scenarios x requester {A, B, both} x action {terminate, close, peer process death}, then seeded random scenarios and cut-points; obligations (a)-(e) of the statement are decided at world quiescence only (half-open = quiescent and still open).',
         note=_NOTE + ' A refused terminate() imposes only "session unharmed". Agent.shutdown() over several contacts is exercised in the C18 agent scenarios.',
     ),
+    'C13': dict(
+        technique='runtime monitor: datagrams captured at the fake UDP socket for real send requests (full queue + paced sender in virtual time) and the receive queue after every fed datagram, judged by an independent CBOR walker, a tiling model and an exactly-once model',
+        text='Exploration with exhaustive sub-spaces: bundle lengths x MTUs across CBOR head-size boundaries and transfer ids; all permutations of segment sets up to 5 (thorough 6), single repeats at every position, seeded interleavings over transfer ids and peer address/port, datagrams of several messages and zero padding, and round trips of what the real sender produced; range_encode/range_decode round trips against set[int].',
+        note=_NOTE + ' MTUs that cannot carry one data octet per segment are outside the domain.',
+    ),
+    'C20': dict(
+        technique='runtime differential monitor: real BTP-U message classes vs an independent codec in both directions, Ethernet frames captured at the fake AF_PACKET socket, receive queue after every fed frame',
+        text='Exploration with exhaustive sub-spaces: seeded message sets (bundle PDU, segment/end with 0-3 hints, definite and trailing padding) through both codecs both ways incl. decode->re-encode identity; bundle lengths around the segmentation threshold per MTU; all permutations of up to 5 (thorough 6) segments produced by the real sender and of 1-4 segments built by the independent encoder; interleaved transfers from two peers.',
+        note=_NOTE + ' The independent codec is written from the header layout in the repository (no published specification offline).',
+    ),
     'C14': dict(
         technique='runtime monitor in virtual time: send_message/recv_raw recorder on both real endpoints judged by a keepalive/idle timer model; get_session_parameters() vs announced values; icontract postcondition on the segment-size controller plus wire bound',
         text='Exploration over the 6x6 keepalive grid x idle times with traffic placed 1 ms before, at and 1 ms after each deadline (virtual clock), a mute-peer family for the terminating-endpoint clause (idle times x keepalives x request offsets x in-flight bundle) and seeded adaptive-segment-size runs with 1 ms network latency; every KEEPALIVE must follow exactly K of own silence, no silence longer than K, SESS_TERM(idle-timeout) exactly at I without traffic, closure by request + I.',
